@@ -23,6 +23,10 @@ def cases(tier, rng, k0=0):
         ops = []
         for _ in range(rng.randint(4, 16)):
             c = rng.randrange(nc)
+            if not owing[c] and rng.random() < 0.08:
+                # the client goes away between two exchanges and comes back under the same identity
+                ops.append("reconn %d" % c)
+                continue
             if owing[c]:
                 if rng.random() < 0.85:
                     ops.append("recv %d" % c)
@@ -42,6 +46,14 @@ def cases(tier, rng, k0=0):
         rng.shuffle(rest)
         ops += ["recv %d" % c for c in rest]
         out.append("q%d chain %d %d %s%s / %s" % (k0 + i, nc, nw, tr, " cap" if cap else "", " / ".join(ops)))
+    # fixed: every client does an exchange, goes away, comes back under its identity and does two more
+    for j, tr in enumerate(("tcp", "ipc")):
+        ops = []
+        for c in range(2):
+            ops += ["req %d %s" % (c, W.tok(b"a%d" % c)), "recv %d" % c]
+        for c in range(2):
+            ops += ["reconn %d" % c, "req %d %s" % (c, W.tok(b"b%d" % c)), "recv %d" % c, "req %d %s;-" % (c, W.tok(b"c%d" % c)), "recv %d" % c]
+        out.append("q%d chain 2 2 %s / %s" % (k0 + n + j, tr, " / ".join(ops)))
     return out
 
 
@@ -62,6 +74,10 @@ def judge(line, obs):
     owing = [None] * nc
     for op, tk in zip(ops, toks):
         c = int(op[1])
+        if op[0] == "reconn":
+            if tk != "c=ok":
+                return "client %d could not come back under its identity: %s" % (c, tk)
+            continue
         if op[0] == "req":
             if owing[c] is None:
                 if tk != "q=ok":
